@@ -48,16 +48,21 @@ Qed.
 (* static conditions on the section keywords, computed from the generated constants *)
 Definition kw_nulfree (w : word) : bool := match w with WStr t => nul_free t | _ => true end.
 
-Definition files_end_static : bool :=
-  match kw_env, kw_ovr with
+Definition files_end_for (k : word) : bool :=
+  match kw_env, k with
   | WStr _, WBytes t2 =>
       match skipn mode_width t2 with x :: y :: _ => negb ((x =? 0) && (y =? 0)) | _ => false end
   | _, _ => true
   end.
 
+(* the keyword of an empty override section is not a proper extension of the other keyword *)
+Definition ovr_static : bool :=
+  match strip (enc_word kw_ovrN) (enc_word kw_ovrE) with Some [] => true | None => true | _ => false end.
+
 Lemma kw_static :
-  kw_nulfree kw_env = true /\ kw_nulfree kw_ovr = true /\ files_end_static = true.
-Proof. repeat split; reflexivity. Qed.
+  kw_nulfree kw_env = true /\ (forall b, kw_nulfree (kw_ovr_of b) = true)
+  /\ (forall b, files_end_for (kw_ovr_of b) = true) /\ ovr_static = true.
+Proof. repeat split; try (intros []; reflexivity); reflexivity. Qed.
 
 (* ---------- small list lemmas ---------- *)
 Definition bnd (r : str) : bool := match r with [] => true | x :: _ => x =? 0 end.
@@ -252,41 +257,6 @@ Proof. destruct l as [|[n v] l]; [reflexivity|]. rewrite hw_encode_ovr_cons. ref
 Lemma bnd_envs_then l w Z : bnd (hw_encode (env_words l) ++ enc_word w ++ Z) = true.
 Proof. apply bnd_hw_encode, bnd_enc_word. Qed.
 
-Lemma dec_envs_end fuel Y :
-  bnd Y = true -> dec_envs (S fuel) (enc_word kw_ovr ++ Y) = Some ([], enc_word kw_ovr ++ Y).
-Proof.
-  intros HY. destruct kw_static as [_ [Hk _]]. cbn [dec_envs].
-  destruct kw_ovr as [b|t|] eqn:E; cbn [kw_nulfree] in Hk.
-  - reflexivity.
-  - rewrite enc_str. cbn [app]. rewrite read_str_app by assumption.
-    cbn [word_eqb]. rewrite str_eqb_refl. reflexivity.
-  - reflexivity.
-Qed.
-
-Lemma dec_envs_ok envs : forall fuel Y,
-  (length envs < fuel)%nat -> forallb wf_env envs = true ->
-  forallb (fun kv => negb (word_eqb (WStr (fst kv)) kw_ovr)) envs = true ->
-  bnd Y = true ->
-  dec_envs fuel (hw_encode (env_words envs) ++ enc_word kw_ovr ++ Y)
-  = Some (envs, enc_word kw_ovr ++ Y).
-Proof.
-  induction envs as [|[n v] envs IH]; intros fuel Y Hf Hwf Hnm HY.
-  - destruct fuel as [|f]; [cbn in Hf; lia|]. cbn [env_words flat_map hw_encode app].
-    apply dec_envs_end. exact HY.
-  - destruct fuel as [|f]; [cbn in Hf; lia|]. cbn [length] in Hf.
-    cbn [forallb] in Hwf, Hnm. apply andb_true_iff in Hwf as [Hw1 Hwf].
-    apply andb_true_iff in Hnm as [Hn1 Hnm]. apply negb_true_iff in Hn1. cbn [fst] in Hn1.
-    unfold wf_env in Hw1. cbn [fst snd] in Hw1. apply andb_true_iff in Hw1 as [Hn Hv].
-    rewrite hw_encode_env_cons. cbn [app]. rewrite <- !app_assoc. cbn [dec_envs].
-    rewrite read_str_app; [| exact Hn | apply bnd_enc_word ]. rewrite Hn1.
-    destruct v as [v|]; cbn [opt_word].
-    + rewrite enc_str. cbn [app].
-      rewrite read_str_app; [| exact Hv | apply bnd_envs_then ].
-      rewrite IH; [reflexivity | lia | exact Hwf | exact Hnm | exact HY].
-    + rewrite enc_none. cbn [app].
-      rewrite IH; [reflexivity | lia | exact Hwf | exact Hnm | exact HY].
-Qed.
-
 Lemma dec_ovrs_ok ovrs : forall fuel,
   (length ovrs < fuel)%nat -> forallb wf_ovr ovrs = true ->
   dec_ovrs fuel (hw_encode (ovr_words ovrs)) = Some ovrs.
@@ -302,30 +272,97 @@ Proof.
     rewrite IH; [reflexivity | lia | exact Hwf].
 Qed.
 
-Lemma envs_length l : (length l <= length (hw_encode (env_words l)))%nat.
-Proof.
-  induction l as [|[n v] l IH]; [cbn; lia|]. rewrite hw_encode_env_cons. cbn [length].
-  rewrite !app_length. lia.
-Qed.
-
 Lemma ovrs_length l : (length l <= length (hw_encode (ovr_words l)))%nat.
 Proof.
   induction l as [|[n v] l IH]; [cbn; lia|]. rewrite hw_encode_ovr_cons. cbn [length].
   rewrite !app_length. cbn [length]. rewrite app_length. lia.
 Qed.
 
-(* The file loop of from_inp ends where the environment section starts. *)
-Lemma files_end_inp envs Y :
-  bnd Y = true ->
-  is_entry_start (enc_word kw_env ++ hw_encode (env_words envs) ++ enc_word kw_ovr ++ Y) = false.
+Lemma dec_ovr_section_ok ovrs :
+  forallb wf_ovr ovrs = true -> dec_ovr_section (hw_encode (ovr_words ovrs)) = Some ([], ovrs).
 Proof.
-  intros HY. destruct kw_static as [Hke [_ Hst]]. unfold files_end_static in Hst.
-  destruct kw_env as [b|t|] eqn:Ee; cbn [kw_nulfree] in Hke; [reflexivity| |reflexivity].
+  intros Hwf. unfold dec_ovr_section. rewrite dec_ovrs_ok; [reflexivity| |exact Hwf].
+  pose proof (ovrs_length ovrs). lia.
+Qed.
+
+(* the end of the variables: the override keyword (which one depends on whether there are
+   overrides) and the override section *)
+Lemma dec_envs_end fuel ovrs :
+  forallb wf_ovr ovrs = true ->
+  dec_envs (S fuel) (enc_word (kw_ovr_of (nonempty ovrs)) ++ hw_encode (ovr_words ovrs)) = Some ([], ovrs).
+Proof.
+  intros Hwf. destruct kw_static as [_ [Hk [_ Hos]]].
+  pose proof (dec_ovr_section_ok ovrs Hwf) as Hsec.
+  destruct ovrs as [|o ovrs].
+  - (* no overrides: the keyword kw_ovrE is the whole rest *)
+    cbn [nonempty ovr_words flat_map hw_encode]. rewrite app_nil_r.
+    change (kw_ovr_of false) with kw_ovrE. specialize (Hk false). change (kw_ovr_of false) with kw_ovrE in Hk.
+    cbn [dec_envs]. unfold ovr_static in Hos.
+    destruct kw_ovrE as [b|t|] eqn:EE; cbn [kw_nulfree] in Hk.
+    + rewrite enc_bytes in *. destruct (strip (enc_word kw_ovrN) (0 :: 0 :: b)) as [[|x r']|];
+        [reflexivity | discriminate Hos | rewrite str_eqb_refl; reflexivity].
+    + rewrite enc_str in *. rewrite <- (app_nil_r t) at 1. rewrite read_str_app by (exact Hk || reflexivity).
+      destruct (word_eqb (WStr t) kw_ovrN); [reflexivity|].
+      cbn [word_eqb]. rewrite str_eqb_refl. reflexivity.
+    + rewrite enc_none in *. destruct (strip (enc_word kw_ovrN) [0; 2]) as [[|x r']|];
+        [reflexivity | discriminate Hos | reflexivity].
+  - (* overrides: the keyword kw_ovrN, then the section *)
+    cbn [nonempty]. change (kw_ovr_of true) with kw_ovrN.
+    specialize (Hk true). change (kw_ovr_of true) with kw_ovrN in Hk.
+    set (Y := hw_encode (ovr_words (o :: ovrs))) in *.
+    assert (HY : bnd Y = true) by apply bnd_ovrs.
+    pose proof (strip_app (enc_word kw_ovrN) Y) as Hs.
+    cbn [dec_envs].
+    destruct kw_ovrN as [b|t|] eqn:EN; cbn [kw_nulfree] in Hk.
+    + rewrite enc_bytes in *. cbn [app] in *. rewrite Hs. exact Hsec.
+    + rewrite enc_str. cbn [app]. rewrite read_str_app by assumption.
+      cbn [word_eqb]. rewrite str_eqb_refl. exact Hsec.
+    + rewrite enc_none in *. cbn [app] in *. rewrite Hs. exact Hsec.
+Qed.
+
+Lemma dec_envs_ok envs : forall fuel ovrs,
+  (length envs < fuel)%nat -> forallb wf_env envs = true ->
+  forallb (fun kv => negb (word_eqb (WStr (fst kv)) kw_ovrN)) envs = true ->
+  forallb wf_ovr ovrs = true ->
+  dec_envs fuel (hw_encode (env_words envs) ++ enc_word (kw_ovr_of (nonempty ovrs)) ++ hw_encode (ovr_words ovrs))
+  = Some (envs, ovrs).
+Proof.
+  induction envs as [|[n v] envs IH]; intros fuel ovrs Hf Hwf Hnm Hwo.
+  - destruct fuel as [|f]; [cbn in Hf; lia|]. cbn [env_words flat_map hw_encode app].
+    apply dec_envs_end. exact Hwo.
+  - destruct fuel as [|f]; [cbn in Hf; lia|]. cbn [length] in Hf.
+    cbn [forallb] in Hwf, Hnm. apply andb_true_iff in Hwf as [Hw1 Hwf].
+    apply andb_true_iff in Hnm as [Hn1 Hnm]. apply negb_true_iff in Hn1. cbn [fst] in Hn1.
+    unfold wf_env in Hw1. cbn [fst snd] in Hw1. apply andb_true_iff in Hw1 as [Hn Hv].
+    rewrite hw_encode_env_cons. cbn [app]. rewrite <- !app_assoc. cbn [dec_envs].
+    rewrite read_str_app; [| exact Hn | apply bnd_enc_word ]. rewrite Hn1.
+    destruct v as [v|]; cbn [opt_word].
+    + rewrite enc_str. cbn [app is_nil]. rewrite andb_false_r.
+      rewrite read_str_app; [| exact Hv | apply bnd_envs_then ].
+      rewrite IH; [reflexivity | lia | exact Hwf | exact Hnm | exact Hwo].
+    + rewrite enc_none. cbn [app is_nil]. rewrite andb_false_r.
+      rewrite IH; [reflexivity | lia | exact Hwf | exact Hnm | exact Hwo].
+Qed.
+
+Lemma envs_length l : (length l <= length (hw_encode (env_words l)))%nat.
+Proof.
+  induction l as [|[n v] l IH]; [cbn; lia|]. rewrite hw_encode_env_cons. cbn [length].
+  rewrite !app_length. lia.
+Qed.
+
+
+(* The file loop of from_inp ends where the environment section starts. *)
+Lemma files_end_inp envs b Y :
+  bnd Y = true ->
+  is_entry_start (enc_word kw_env ++ hw_encode (env_words envs) ++ enc_word (kw_ovr_of b) ++ Y) = false.
+Proof.
+  intros HY. destruct kw_static as [Hke [_ [Hst _]]]. specialize (Hst b). unfold files_end_for in Hst.
+  destruct kw_env as [bb|t|] eqn:Ee; cbn [kw_nulfree] in Hke; [reflexivity| |reflexivity].
   rewrite enc_str. cbn [app]. unfold is_entry_start.
   rewrite read_str_app; [| exact Hke | apply bnd_envs_then ]. cbn [snd].
   destruct envs as [|[n v] envs].
   - cbn [env_words flat_map hw_encode app].
-    destruct kw_ovr as [t2|t2|] eqn:Eo; [| reflexivity | reflexivity].
+    destruct (kw_ovr_of b) as [t2|t2|] eqn:Eo; [| reflexivity | reflexivity].
     rewrite enc_bytes. cbn [app].
     destruct (skipn mode_width t2) as [|x [|y t3]] eqn:Es; try discriminate Hst.
     rewrite (skipn_app_long _ _ _ _ _ _ Es).
@@ -333,6 +370,12 @@ Proof.
     destruct (y =? 0) eqn:Ey; [discriminate Hst|].
     apply N.eqb_eq in Ex. subst x. apply N.eqb_neq in Ey. destruct y; [congruence|reflexivity].
   - rewrite hw_encode_env_cons. reflexivity.
+Qed.
+
+Lemma nonempty_sort {V} (l : list (str * V)) : nonempty (sort_keys l) = nonempty l.
+Proof.
+  pose proof (Permutation_length (sort_perm l)) as H.
+  destruct l; destruct (sort_keys _); cbn in *; try reflexivity; discriminate H.
 Qed.
 
 (* ---------- the decoders invert the encoders ---------- *)
@@ -355,7 +398,7 @@ Lemma inp_preimage_eq c :
   inp_preimage c =
   0 :: 1 :: cfg_label c ++ enc_word kw_shell ++ 0 :: 0 :: N.b2n (cfg_shell c) :: enc_word kw_inp ++
   hw_encode (entries_words (sort_keys (cfg_inps c))) ++ enc_word kw_env ++
-  hw_encode (env_words (sort_keys (cfg_envs c))) ++ enc_word kw_ovr ++
+  hw_encode (env_words (sort_keys (cfg_envs c))) ++ enc_word (kw_ovr_of (nonempty (cfg_ovrs c))) ++
   hw_encode (ovr_words (sort_keys (cfg_ovrs c))).
 Proof.
   unfold inp_preimage. rewrite inp_words_shape. unfold inp_words_spec.
@@ -393,11 +436,10 @@ Proof.
   rewrite dec_entries_ok; [| exact Hf1 | eapply forallb_perm; [exact Pi|exact Hi]
                            | unfold digests_ok in *; eapply forallb_perm; [exact Pi|exact Hd]
                            | apply files_end_inp, bnd_ovrs | ].
-  - rewrite strip_app.
-    rewrite dec_envs_ok; [| exact Hf2 | eapply forallb_perm; [exact Pe|exact He]
+  - rewrite strip_app. rewrite <- (nonempty_sort (cfg_ovrs c)). fold ovrs.
+    rewrite dec_envs_ok; [reflexivity | exact Hf2 | eapply forallb_perm; [exact Pe|exact He]
                           | unfold env_names_ok in Hnm; eapply forallb_perm; [exact Pe|exact Hnm]
-                          | apply bnd_ovrs ].
-    rewrite strip_app. rewrite dec_ovrs_ok; [reflexivity | exact Hf3 | eapply forallb_perm; [exact Po|exact Ho]].
+                          | eapply forallb_perm; [exact Po|exact Ho] ].
   - destruct md; [reflexivity|]. unfold kw_env_is_str in Hmd.
     destruct kw_env as [b|t|]; try discriminate Hmd. rewrite enc_str. reflexivity.
 Qed.
@@ -437,6 +479,10 @@ Theorem inp_order_independent c1 c2 :
   cfg_equiv c1 c2 -> inp_preimage c1 = inp_preimage c2.
 Proof.
   intros N1 N2 N3 [El [Es [Pi [Pe Po]]]]. rewrite !inp_preimage_eq, El, Es.
+  assert (En : nonempty (cfg_ovrs c1) = nonempty (cfg_ovrs c2)).
+  { pose proof (Permutation_length Po) as L.
+    destruct (cfg_ovrs c1), (cfg_ovrs c2); cbn in *; try reflexivity; discriminate L. }
+  rewrite En.
   rewrite (sort_perm_eq _ _ (nodupb_NoDup _ N1) Pi), (sort_perm_eq _ _ (nodupb_NoDup _ N2) Pe),
           (sort_perm_eq _ _ (nodupb_NoDup _ N3) Po). reflexivity.
 Qed.
@@ -450,7 +496,7 @@ Qed.
 Lemma env_names_ok_when_repaired c : kw_ovr_is_str = false -> env_names_ok c = true.
 Proof.
   intros H. unfold env_names_ok. apply forallb_forall. intros kv _. unfold kw_ovr_is_str in H.
-  destruct kw_ovr; [reflexivity | discriminate H | reflexivity].
+  destruct kw_ovrN; [reflexivity | discriminate H | reflexivity].
 Qed.
 
 Theorem out_preimage_injective_when_repaired :
@@ -521,13 +567,13 @@ Definition d2b_c1 : cfg := mk_cfg [99;109;100] false [] [([65], Some [98])] [([9
 Definition d2b_c2 : cfg := mk_cfg [99;109;100] false [] [([65], Some [98]); (d2b_K, Some [99])] [].
 
 Theorem inp_preimage_injective_refuted_keyword :
-  kw_ovr = WStr d2b_K ->
+  (forall b, kw_ovr_of b = WStr d2b_K) ->
   exists c1 c2, wf c1 = true /\ wf c2 = true
                 /\ digests_ok Fixed (cfg_inps c1) = true /\ digests_ok Fixed (cfg_inps c2) = true
                 /\ ~ cfg_equiv c1 c2 /\ inp_preimage c1 = inp_preimage c2.
 Proof.
-  intros Hshape.
-  first [ solve [vm_compute in Hshape; discriminate Hshape]
+  intros Hshape. pose proof (Hshape true) as Hshape1.
+  first [ solve [vm_compute in Hshape1; discriminate Hshape1]
         | exists d2b_c1, d2b_c2; repeat (split; [vm_compute; reflexivity|]);
           split; [intros [_ [_ [_ [P _]]]]; apply Permutation_length in P; discriminate P
                  | vm_compute; reflexivity] ].
@@ -592,4 +638,38 @@ Theorem cfg_equiv_same_maps c1 c2 :
 Proof.
   intros N1 N2 N3 [El [Es [Pi [Pe Po]]]]. split; [exact El|]. split; [exact Es|]. intros k.
   repeat split; apply perm_lookup; try assumption; apply nodupb_NoDup; assumption.
+Qed.
+
+(* ---------- the current tree: unknown digests are hashed as the missing-word marker (fix
+   838760d), so the output digest is injective without extra hypotheses and the input digest
+   needs env_names_ok only.  These three lemmas break (eq_refl no longer typechecks) if the code
+   goes back to hashing b"u" as a bytes word. ---------- *)
+Lemma unknown_as_none_now : unknown_as_none = true.
+Proof. reflexivity. Qed.
+
+Theorem out_preimage_injective_full :
+  forall m1 m2, wf_files m1 = true -> wf_files m2 = true ->
+    out_preimage m1 = out_preimage m2 -> Permutation m1 m2.
+Proof. exact (out_preimage_injective_when_repaired unknown_as_none_now). Qed.
+
+Theorem decode_out_ok_full m :
+  wf_files m = true -> decode_out Fixed (out_preimage m) = Some (sort_keys m).
+Proof.
+  intros W. apply decode_out_ok; [exact W|]. apply digests_ok_fixed_when_repaired, unknown_as_none_now.
+Qed.
+
+Lemma inp_ok_fixed_now c : env_names_ok c = true -> inp_ok Fixed c = true.
+Proof.
+  intros H. unfold inp_ok. rewrite (digests_ok_fixed_when_repaired _ unknown_as_none_now), H. reflexivity.
+Qed.
+
+Theorem decode_inp_ok_env c :
+  wf c = true -> env_names_ok c = true -> decode_inp Fixed (inp_preimage c) = Some (canon c).
+Proof. intros W E. apply decode_inp_ok; [exact W|apply inp_ok_fixed_now; exact E]. Qed.
+
+Theorem inp_preimage_injective_env c1 c2 :
+  wf c1 = true -> wf c2 = true -> env_names_ok c1 = true -> env_names_ok c2 = true ->
+  inp_preimage c1 = inp_preimage c2 -> cfg_equiv c1 c2.
+Proof.
+  intros W1 W2 E1 E2. apply (inp_preimage_injective Fixed); try assumption; apply inp_ok_fixed_now; assumption.
 Qed.
